@@ -20,11 +20,11 @@ type c17Case struct {
 	Slot  string   `json:"slot"`  // missing | equal | different
 }
 
-var c17Atoms = []string{"ok-any", "ok-type", "ok-custom", "miss-any", "miss-type", "miss-custom", "bad-type", "bad-custom", "bad-type2", "bad-syntax", "bad-type-null", "bad-custom-chan", "bad-any-child-after-parent", "bad-type-tagged", "bad-type-anchored", "bad-custom-alias"}
+var c17Atoms = []string{"ok-any", "ok-type", "ok-custom", "miss-any", "miss-type", "miss-custom", "bad-type", "bad-custom", "bad-type2", "bad-syntax", "bad-type-null", "bad-custom-chan", "bad-any-child-after-parent", "bad-type-tagged", "bad-type-anchored", "bad-custom-alias", "miss-type-between"}
 
 const (
-	c17JSONDoc  = `{"a":1,"b":"x","c":{"d":true},"e":2,"n":null}`
-	c17JSONDoc2 = `{"a":5,"b":"y","c":{"d":false},"e":3,"n":null}`
+	c17JSONDoc  = `{"a":1,"b":"x","c":{"d":true},"e":2,"n":null,"f":2.5,"g":7}`
+	c17JSONDoc2 = `{"a":5,"b":"y","c":{"d":false},"e":3,"n":null,"f":9.5,"g":8}`
 	c17YAMLDoc  = "a: 1\nb: x\nc:\n  d: true\ne: 2\nn: null\nt: !!str 10\nan: &an 4\nal: *an\n"
 	c17YAMLDoc2 = "a: 5\nb: y\nc:\n  d: false\ne: 3\nn: null\nt: !!str 10\nan: &an 4\nal: *an\n"
 )
@@ -46,7 +46,7 @@ func c17Build(api string, atoms []string, eomp bool, dropMissing bool) c17Built 
 		}
 		return s
 	}
-	nType := 0
+	nType, nBetween := 0, 0
 	for _, a := range atoms {
 		switch a {
 		case "ok-any":
@@ -126,6 +126,29 @@ func c17Build(api string, atoms []string, eomp bool, dropMissing bool) c17Built 
 			m := match.Custom(p("e"), func(v any) (any, error) { return map[string]any{"c": make(chan int)}, nil }).ErrOnMissingPath(eomp)
 			b.jm, b.ym = append(b.jm, m), append(b.ym, m)
 			b.fails = append(b.fails, `Custom("`+p("e")+`")`)
+		case "ok-type-fg":
+			if !yaml {
+				b.jm = append(b.jm, match.Type[float64](p("f"), p("g")))
+			}
+		case "miss-type-between":
+			// ONE Type matcher over three paths, the middle one absent: with ErrOnMissingPath(false) the other two are still replaced
+			if yaml {
+				b.skip = true
+				continue
+			}
+			nBetween++
+			if nBetween > 1 && !eomp {
+				// matchers take effect left to right: f and g already hold string placeholders (a FAILING matcher's output is discarded, so not with eomp)
+				b.fails = append(b.fails, `Type("`+p("f")+`")`, `Type("`+p("g")+`")`)
+			}
+			if dropMissing {
+				b.jm = append(b.jm, match.Type[float64](p("f"), p("g")))
+				continue
+			}
+			b.jm = append(b.jm, match.Type[float64](p("f"), p("missing"), p("g")).ErrOnMissingPath(eomp))
+			if eomp {
+				b.fails = append(b.fails, `Type("`+p("missing")+`")`)
+			}
 		case "bad-any-child-after-parent":
 			// ONE Any whose first path replaces the parent of its second path: the second path no longer exists when its turn comes
 			if yaml {
@@ -368,10 +391,14 @@ func c17Run(c *vfCtx, cs c17Case) {
 
 func c17OnlyOK(atoms []string) []string {
 	var out []string
-	seenType := false
+	seenType, seenBetween := false, false
 	for _, a := range atoms {
 		if a == "ok-type" && seenType {
 			continue
+		}
+		if a == "miss-type-between" && !seenBetween {
+			out = append(out, "ok-type-fg") // what it does when the absent path is ignored
+			seenBetween = true
 		}
 		if strings.HasPrefix(a, "ok-") {
 			out = append(out, a)
